@@ -16,7 +16,7 @@ LAB, CAP = DelegationType.LABEL, DelegationType.CAPACITY
 PROP = {LAB: 'LabelDelegations', CAP: 'CapacityDelegations'}
 
 
-def build_site(site='A', workers=1, facility=False, second_switch=False, prefix=None):
+def build_site(site='A', workers=1, facility=False, second_switch=False, prefix=None, parallel=False):
     """site with workers (each a two-port NIC), one stitch switch with service and ports, patch links, optional facility,
     optional second switch with an inter-switch link. Static ids are '<prefix>-...'. Returns (topology, element ids)."""
     p = prefix or site
@@ -58,6 +58,10 @@ def build_site(site='A', workers=1, facility=False, second_switch=False, prefix=
         q = sf2.add_interface(name=f'{p}-sw2-p0', node_id=f'{p}-sw2-p0', itype=InterfaceType.TrunkPort, capacities=Capacities(bw=100))
         t.add_link(name=f'{p}-lss', node_id=f'{p}-lss', ltype=LinkType.L2Path, interfaces=[q, ports[nports - 1]])
         ids['sw2'] = dict(node=f'{p}-sw2', ns=f'{p}-sw2-ns', port=f'{p}-sw2-p0', link=f'{p}-lss')
+        if parallel:
+            # a second link between the SAME two ports (two fibres of one trunk)
+            t.add_link(name=f'{p}-lss2', node_id=f'{p}-lss2', ltype=LinkType.L2Path, interfaces=[q, ports[nports - 1]])
+            ids['sw2']['link2'] = f'{p}-lss2'
     return t, ids
 
 
